@@ -132,8 +132,9 @@ ClientRecv(s) ==               \* (a client that has closed its data channel may
 ClientCloseDc(s) ==            \* graceful: what was sent before arrives before the end
   /\ X(s).live /\ X(s).cst = "open" /\ EnvOK /\ MayEnd(s)
   /\ Set(s, [X(s) EXCEPT !.cst = "closed"])
-DownLoss(s) ==                 \* ... or not: what was on its way to a client that has closed may be lost
-  /\ X(s).cst = "closed" /\ X(s).dcDown # <<>>
+DownLoss(s) ==                 \* ... or not: what was still on its way when the channel went away (the client closed
+                               \* it, or the proxy closed the peer connection) may be lost - the tail, never the middle
+  /\ (X(s).cst = "closed" \/ X(s).pcDead) /\ X(s).dcDown # <<>>
   /\ Set(s, [X(s) EXCEPT !.dcDown = SubSeq(@, 1, Len(@) - 1)])
 ClientAbort(s) ==              \* the client tears its peer connection down: what is still in flight may be lost
   /\ X(s).live /\ X(s).cst = "open" /\ EnvOK /\ MayEnd(s)
@@ -170,8 +171,11 @@ RelayRecv(s, k) ==
 RelayCloseWs(s) ==
   /\ X(s).live /\ X(s).rst = "open" /\ EnvOK /\ MayEnd(s)
   /\ Set(s, [X(s) EXCEPT !.rst = "closed"])
-RelaySeesClose(s) ==
-  /\ X(s).rst = "open" /\ ~X(s).rSaw /\ X(s).wsClosed
+UpLoss(s) ==                   \* bytes written to a WebSocket that was closed before the relay took them
+  /\ X(s).wsClosed /\ X(s).wsUp > 0
+  /\ Set(s, [X(s) EXCEPT !.wsUp = 0])
+RelaySeesClose(s) ==           \* in order: after whatever of the stream arrives
+  /\ X(s).rst = "open" /\ ~X(s).rSaw /\ X(s).wsClosed /\ X(s).wsUp = 0
   /\ Set(s, [X(s) EXCEPT !.rSaw = TRUE])
 
 (* ---- R: OnMessage ---- *)
@@ -250,13 +254,17 @@ CopyLoopEnds(s) ==
   /\ Set(s, [X(s) EXCEPT !.H = "pcclose"])
 ConnClose(s) ==                \* conn.Close(): pc.Close() through sync.Once ...
   /\ X(s).H = "pcclose"
-  /\ Set(s, [X(s) EXCEPT !.H = "prclose", !.pcCloses = @ + 1, !.pcDead = TRUE, !.dcDown = <<>>])
+  /\ Set(s, [X(s) EXCEPT !.H = "prclose", !.pcCloses = @ + 1, !.pcDead = TRUE])
+     \* (dcDown is NOT emptied: what has already reached the client's transport is still handed to its reader,
+     \*  e.g. when it resumes reading after the proxy has closed; what had not arrived is lost: DownLoss)
 PrClose(s) ==                  \* ... then (repaired code) the pipe reader
   /\ X(s).H = "prclose"
   /\ Set(s, [X(s) EXCEPT !.H = "wsclose", !.prClosed = ~AsIs_PipeHang])
 WsClose(s) ==                  \* wsConn.Close()
   /\ X(s).H = "wsclose"
-  /\ Set(s, [X(s) EXCEPT !.H = "ret", !.wsClosed = TRUE, !.wsUp = 0])
+  /\ Set(s, [X(s) EXCEPT !.H = "ret", !.wsClosed = TRUE])
+     \* (wsUp is NOT emptied: what was written before the close still reaches a relay that is reading, before
+     \*  it sees the close; what does not is lost: UpLoss)
 HandlerReturns(s) ==           \* deferred: wsConn.Close() again, tokens.ret(), conn.Close() (no-op)
   /\ X(s).H = "ret"
   /\ Set(s, [X(s) EXCEPT !.H = "done", !.retd = @ + 1])
@@ -268,7 +276,7 @@ ProxyStep(s) ==
   \/ (\E k \in 1..X(s).wsDown : CopyDownRead(s, k))
 EnvStep(s) ==
   \/ Start(s) \/ ClientRecv(s) \/ ClientStallsReading(s) \/ ClientResumes(s) \/ ClientCloseDc(s) \/ ClientAbort(s) \/ DcLoss(s) \/ DownLoss(s) \/ ClientVanish(s) \/ ClientSeesClose(s)
-  \/ RelayCloseWs(s) \/ RelaySeesClose(s)
+  \/ RelayCloseWs(s) \/ RelaySeesClose(s) \/ UpLoss(s)
   \/ (\E m \in Sizes : ClientSend(s, m) \/ RelaySend(s, m))
   \/ (\E k \in 1..X(s).wsUp : RelayRecv(s, k))
 
